@@ -148,6 +148,17 @@ def run(tier, seed, replay=None):
         dcases[cid] = (s2, d)
         cases.append({"id": cid, "settings": {}, "history": [{"op": "root", "schema": {"definitions": {"D": s2}}}],
                       "opts": {"facts": False, "code": False, "has_impl": False, "hooks": False}})
+    # pinned input of KF-C10-1 (and its mirror images)
+    k = len(dsample)
+    for s2 in ({"type": "integer", "format": "int64", "default": 9223372036854775808},
+               {"type": "integer", "format": "uint64", "default": 18446744073709551616},
+               {"type": "integer", "format": "int64", "default": 9223372036854775807}):
+        cid = "d%05d" % k
+        k += 1
+        dcases[cid] = (s2, s2["default"])
+        cases.append({"id": cid, "settings": {}, "history": [{"op": "root", "schema": {"definitions": {"D": s2}}}],
+                      "opts": {"facts": False, "code": False, "has_impl": False, "hooks": False}})
+    dsample = dsample + [None] * 3
     # directed: a recognised format whose fast path is left (multipleOf, or an explicit bound outside the format) with a
     # default beyond the format's range on the side that carries no explicit bound
     k = len(dsample)
@@ -224,7 +235,13 @@ def run(tier, seed, replay=None):
                 # told apart by any implementation on top of it
                 rep.count("default_f64_indistinguishable")
             elif not in_range and st == "ok" and not empty:
-                rep.violation("bad_default_accepted", kinds(base), {"schema": s2, "default": dv}, schema=s2)
+                # KF-C10-1: typify compares the default with the limits as f64 (its own TODO says so): a default that is
+                # one off a limit beyond 2^53 converts to the same f64 as the limit and passes
+                lo_, hi_ = effective_range(base)
+                cause = None
+                if (hi_ is not None and dv > hi_ and float(dv) == float(hi_)) or (lo_ is not None and dv < lo_ and float(dv) == float(lo_)):
+                    cause = "default_equals_limit_in_f64"
+                rep.violation("bad_default_accepted", kinds(base), {"schema": s2, "default": dv, "cause": cause}, schema=s2, cause=cause)
             elif in_range and st in ("err", "panic"):
                 # property only demands errors for out-of-range defaults; a valid default rejected is C06's concern
                 rep.count("valid_default_rejected")
@@ -261,9 +278,28 @@ def run(tier, seed, replay=None):
     return rep.finish(findings, min_nontrivial=500)
 
 
+def effective_range(sch):
+    """(lo, hi) of the integers a schema admits (None = unbounded), from the format and the explicit bounds."""
+    lo = hi = None
+    fmt = sch.get("format")
+    if fmt in oracle.INT_FORMATS:
+        lo, hi = oracle.INT_FORMATS[fmt]
+    import math
+    if "minimum" in sch:
+        v = math.ceil(sch["minimum"]); lo = v if lo is None else max(lo, v)
+    if "exclusiveMinimum" in sch:
+        v = math.floor(sch["exclusiveMinimum"]) + 1; lo = v if lo is None else max(lo, v)
+    if "maximum" in sch:
+        v = math.floor(sch["maximum"]); hi = v if hi is None else min(hi, v)
+    if "exclusiveMaximum" in sch:
+        v = math.ceil(sch["exclusiveMaximum"]) - 1; hi = v if hi is None else min(hi, v)
+    return lo, hi
+
+
 def kinds(s):
     return "%s;%s;%s" % (s.get("format"), "emin" if "exclusiveMinimum" in s else ("min" if "minimum" in s else "-"),
                          "emax" if "exclusiveMaximum" in s else ("max" if "maximum" in s else "-"))
 
 
-PREDS = {}
+from . import common as _common
+PREDS = dict(_common.PREDS)
